@@ -13,8 +13,8 @@ RULE = ('each run builds one include tree on SimFS (depth 0-4; include lines fir
         'cwd candidates and unrelated directories; deliberately ambiguous adjacent/-i twins) and assembles it under every combination of '
         'cwd x main-path spelling x -i spelling x compress through the API, plus CLI invocations; oracle = an independent splicer flattens '
         'the tree (every admissible choice for ambiguous includes) and the flattened file is assembled by path; all variants must equal a '
-        'flattening and each other.  non-trivial = tree has >= 1 include and the flattening assembles; distinct = (depth, #includes, '
-        'placement kinds, ambiguity, outcome) signatures')
+        'flattening and each other.  non-trivial = tree has >= 1 include and the flattening assembles; distinct = include-graph shapes: the sorted '
+        'multiset of edges (depth of the includer, placement kind, position class) + ambiguity + decoys + outcome')
 COMPONENTS = {'real': ['bronzebeard/asm.py (read_lines include search and recursion, all passes, cli_main -i handling)'],
               'stub': ['file system and cwd (SimFS)', 'reference splicer (sim/progs.py flatten, 40 lines, independent of asm.py)']}
 ASSUMPTIONS = ['include lines are written from column 0 as in the documentation', 'relative -i spellings are generated so that they denote the same directory from the chosen cwd',
@@ -231,7 +231,20 @@ def run_scenario(scen, keep_events=False):
         res.hit('tree:no-includes-verdict')
     kinds = sorted(set(('P' if i['written'].startswith('../') else 'S' if '/' in i['written'] else
                         'I' if posixpath.dirname(i['target']) in tree['inc_dirs'] else 'A') for i in tree['includes']))
-    res.sig = 'd%d|n%d|%s|amb%d|dec%d|%s' % (depth, nincl, ''.join(kinds), len(tree.get('twins') or []), int(bool(tree.get('decoys'))),
+    # shape of the include graph: for every include edge (depth of the includer, placement kind, line style, position class)
+    fd = {main: 0}
+    for _ in range(8):
+        for i in tree['includes']:
+            if i['from'] in fd:
+                fd.setdefault(i['target'], fd[i['from']] + 1)
+    edges = []
+    for i in tree['includes']:
+        src = tree['files'][i['from']].replace('\r', '').split('\n')
+        pos = next((k for k, l in enumerate(src) if progs.parse_include_line(l) == i['written']), 0)
+        posc = 'first' if pos == 0 else ('last' if pos >= len([l for l in src if l.strip()]) - 1 else 'mid')
+        kind = 'P' if i['written'].startswith('../') else 'D' if '/../' in i['written'] else 'S' if '/' in i['written'] else 'I' if posixpath.dirname(i['target']) in tree['inc_dirs'] else 'A'
+        edges.append((fd.get(i['from'], 9), kind, posc))
+    res.sig = 'd%d|n%d|%s|amb%d|dec%d|%s' % (depth, nincl, ','.join('%d%s%s' % e for e in sorted(edges)), len(tree.get('twins') or []), int(bool(tree.get('decoys'))),
                                              'verdict' if verdict_possible else 'noverdict')
     res.digest = log.digest()
     res.steps = log.seq
